@@ -196,6 +196,7 @@ type provider struct {
 	jwksHits    int
 	sched       func(point string) // scheduling hook (family sched)
 	jwksFail    bool
+	base        string // issuer and endpoint origin; "" = issuerURL
 }
 
 func newProvider(ks ...*signKey) *provider {
@@ -206,9 +207,13 @@ func newProvider(ks ...*signKey) *provider {
 }
 
 func (p *provider) document() M {
-	d := M{"issuer": issuerURL, "authorization_endpoint": issuerURL + "/auth", "token_endpoint": issuerURL + "/token", "jwks_uri": issuerURL + "/jwks", "revocation_endpoint": issuerURL + "/revoke"}
+	base := issuerURL
+	if p.base != "" { // another provider altogether (its own issuer and endpoints)
+		base = p.base
+	}
+	d := M{"issuer": base, "authorization_endpoint": base + "/auth", "token_endpoint": base + "/token", "jwks_uri": base + "/jwks", "revocation_endpoint": base + "/revoke"}
 	if p.endSession {
-		d["end_session_endpoint"] = issuerURL + "/logout"
+		d["end_session_endpoint"] = base + "/logout"
 	}
 	for k, v := range p.doc {
 		d[k] = v
